@@ -221,11 +221,8 @@ class Douglas(DiscriminativeModel):
 
         for (feature_index, cut_points) in self.cut_points_list_:
             feature = X[:, feature_index]
-            min_threshold = cut_points.min()
-            max_threshold = cut_points.max()
-
-            # Check of the cut point lists having at least one threshold falling within bounds of the feature
-            if not (np.all(feature <= min_threshold) or np.all(feature >= max_threshold)):
+            # Check of the cut point lists having at least one threshold falling strictly within bounds of the feature
+            if np.any((feature.min() < cut_points) & (cut_points < feature.max())):
                 active_points += [feature_index]
 
         return active_points
